@@ -4,6 +4,7 @@
      Module.initModule / startModule / the start-up part of __pollThread / stopPollThread (frappy/modulebase.py),
      Server._processCfg with MultiEvent.wait (frappy/server.py, frappy/lib/multievent.py),
      SecNode.shutdown_modules / _getSortedModules.
+   (state of /repo after fix 68acea7: _processCfg fetches every module with get_module.)
    The recursion get_module -> earlyInit/initModule -> Attached.__get__ -> get_module is an explicit stack machine
    (one non-recursive step function); the depth bound of the python interpreter is the parameter [limit].
    No proofs in this file. *)
@@ -455,7 +456,14 @@ Definition shutdown (s : sys) (order : list name) : node :=
   end.
 
 (* ---------------------------------------------------------------- the whole lifecycle *)
-Definition initialised (limit fuel : nat) (c : cfg) : node := init_all limit fuel (create_all limit fuel c).
+(* Server._processCfg after get_descriptive_data: for modname in list(self.secnode.modules): get_module(modname)
+   (a snapshot of the names; modules that are neither exported nor attached are initialised here) *)
+Definition init_rest (limit fuel : nat) (st : node) : node :=
+  fold_left (fun acc b => gm_top limit fuel acc b) (map fst (modules st)) st.
+
+Definition init_phase (limit fuel : nat) (st : node) : node := init_rest limit fuel (init_all limit fuel st).
+
+Definition initialised (limit fuel : nat) (c : cfg) : node := init_phase limit fuel (create_all limit fuel c).
 Definition started (limit fuel : nat) (c : cfg) (sched : list sitem) : sys :=
   run_sched (sys0 (initialised limit fuel c)) sched.
 Definition lifecycle (limit fuel : nat) (c : cfg) (sched : list sitem) (order : list name) : node :=
